@@ -66,3 +66,94 @@ PROPS = {
         "assumptions": ["enlarge operands are VMM-chosen: byte_size + additional < 2^64 is a hypothesis of enlarge_spec (overflow is covered by enlarge_overflow)"],
     },
 }
+
+# ---------------------------------------------------------------------------------------------
+QUERY_OPS = ["g.find", "g.tra", "g.air", "g.ca", "g.cr", "g.co", "g.host", "g.slice", "g.last", "g.num", "g.layout", "g.build", "g.region",
+             "gr.host", "gr.slice", "gr.co", "gr.tra", "gr.last", "g.begin"]
+EDIT_OPS = ["g.begin", "g.region", "g.build", "g.insert", "g.remove", "g.layout", "g.num", "g.last", "g.state"]
+STREAM_OPS = ["s.rvf", "s.revf", "s.wvt", "s.wavt", "g.rvf", "g.revf", "g.wvt", "g.wavt", "gr.rvf", "gr.revf", "gr.wvt", "gr.wavt", "rd.", "wr.", "s.new", "g.build"]
+GUARD_OPS = ["s.guard", "s.new", "s.sub", "s.off", "s.split", "s.ref", "s.arr", "s.s2a", "s.toslice", "s.refat", "s.gsl"]
+
+
+def runs_gm(tier, modes, proj=None, chk=True):
+    n = 30000 if tier == "quick" else 600000
+    out = []
+    for i, mode in enumerate(modes):
+        k = (60 if tier == "quick" else 1500) if mode == "exhaustive" else n
+        r = {"world": "gm", "n": k, "opts": [mode], "seed_off": 100 * i}
+        if proj:
+            r["proj"] = proj
+        out.append(r)
+    if chk:
+        r = {"world": "gm", "n": n // 3, "opts": [modes[-1]], "profile": "chk", "seed_off": 17}
+        if proj:
+            r["proj"] = proj
+        out.append(r)
+    return out
+
+
+def with_proj(runs, proj):
+    for r in runs:
+        r["proj"] = proj
+    return runs
+
+
+PROPS.update({
+    "C02": {
+        "modules": ["VmMem.Props.C02"], "theorems": T("C02"),
+        "runs": lambda tier: runs_gm(tier, ["exhaustive", "mixed"], {"ops": QUERY_OPS, "drop": ["h=", "d="]}),
+        "trusted_base": ["slice::binary_search_by_key contract on a slice strictly sorted by key (model parameter `bsearch`; exercised)"],
+        "assumptions": ["regions are built through the safe constructors (non-empty, start+len < 2^64): hypothesis WF, discharged for the mmap backend by C10"],
+    },
+    "C04": {
+        "modules": ["VmMem.Props.C04"], "theorems": T("C04"),
+        "runs": lambda tier: with_proj(runs_slice(tier), {"drop": ["d="]}) + runs_gm(tier, ["mixed"], {"ops": ["gr.", "g.build", "g.region", "g.begin"], "drop": ["d="]}, chk=False),
+        "trusted_base": ["ptr::copy is memmove, copy_nonoverlapping / read_volatile / write_volatile move exactly the bytes named",
+                         "ByteValued: a value is its byte representation"],
+        "assumptions": ["the compiler's treatment of mixing volatile and non-volatile accesses (the source's own FIXME) is outside the model"],
+    },
+    "C05": {
+        "modules": ["VmMem.Props.C05"], "theorems": T("C05"),
+        "runs": lambda tier: runs_slice(tier, streams=True) + runs_gm(tier, ["mixed"], chk=False),
+        "trusted_base": ["C09 (bitmap refines a page set)", "writes through raw pointers/references are exempt by the statement"],
+        "assumptions": ["the bitmap covers the container (byte_size >= offset + len), as the region constructors arrange"],
+    },
+    "C16": {
+        "modules": ["VmMem.Props.C16"], "theorems": T("C16"),
+        "runs": lambda tier: runs_slice(tier, streams=True) + runs_gm(tier, ["mixed"], chk=False),
+        "trusted_base": ["C09 (bitmap refines a page set)"],
+        "assumptions": ["precision is relative to the byte count the operation reports"],
+    },
+    "C10": {
+        "modules": ["VmMem.Props.C10"], "theorems": T("C10"),
+        "runs": lambda tier: runs_gm(tier, ["edit"], {"ops": EDIT_OPS, "drop": ["h=", "d="]}),
+        "trusted_base": ["Vec::sort_by_key is a stable sort; Vec<Arc<_>>::clone shares the regions; &self methods cannot mutate the old map (exercised: every earlier map is re-observed after each step)"],
+        "assumptions": [],
+    },
+    "C13": {
+        "modules": ["VmMem.Props.C13"], "theorems": T("C13"),
+        "runs": lambda tier: with_proj(runs_slice(tier, streams=True), {"ops": STREAM_OPS, "drop": ["d="]}),
+        "trusted_base": ["the std model (Read for &[u8], Write for &mut [u8]/Vec, Cursor) is transcribed from the std documentation",
+                         "descriptors: one read(2)/write(2) per call, same syscall as std"],
+        "assumptions": ["after a FAILED exact transfer the stream position is not compared with std (std leaves it unspecified)"],
+    },
+    "C14": {
+        "modules": ["VmMem.Props.C14"], "theorems": T("C14"),
+        "runs": lambda tier: with_proj(runs_slice(tier, streams=True), {"ops": STREAM_OPS}) + runs_gm(tier, ["mixed"], {"ops": STREAM_OPS}, chk=False),
+        "trusted_base": ["the scripted stream of the harness obeys its script"],
+        "assumptions": ["scripts are finite; an exhausted script behaves as `full`"],
+    },
+    "C17": {
+        "modules": ["VmMem.Props.C17"], "theorems": T("C17"),
+        "runs": lambda tier: with_proj(runs_slice(tier), {"ops": GUARD_OPS, "drop": ["h=", "d="]}),
+        "trusted_base": ["Xen gntdev/privcmd ioctls and mmap (kernel); page size from sysconf"],
+        "assumptions": ["PARTIAL: the Xen on-demand half is proved over the window model (VmMem/Model/Xen.lean) but the correspondence run covers the standard build only; "
+                        "the emulated-ioctl hook H3 is not built in this session"],
+    },
+    "C18": {
+        "modules": ["VmMem.Props.C18"], "theorems": T("C18"),
+        "runs": lambda tier: runs_slice(tier, streams=True) + runs_gm(tier, ["mixed"], chk=True),
+        "trusted_base": [],
+        "assumptions": ["Xen advance / on-demand regions are not exercised (standard build only)"],
+    },
+})
